@@ -28,6 +28,7 @@ type Run struct {
 	MaxSteps int
 	Bounds   [2]map[string]int
 	Needs    []string // vacuity witnesses that must be reached
+	ThoroughOnly bool
 	TimeBudgetS [2]int
 }
 
@@ -156,6 +157,9 @@ func cmdCheck(args []string) int {
 	nViol := 0
 	replayN := 0
 	for _, r := range prop.Runs {
+		if r.ThoroughOnly && ti == 0 {
+			continue
+		}
 		entry, err := findEntry(prog, r.Pkg, r.Fn)
 		if err != nil {
 			fmt.Println("INCONCLUSIVE:", err)
